@@ -31,7 +31,7 @@ def info(tier):
         "quantity is compared with the reference at n+1 affinely independent points + 1 random point; a model is "
         "non-trivial if it has >= 2 variables and >= 1 constraint row; distinct = canonical recipe hashes",
         "required_cells": [f"layout:{l}" for l in L.LAYOUTS] + ["sense:<=", "sense:>=", "sense:==", "objective", "bounds", "columns",
-                                                                 "extract_linear_coefficient", "extract_constant_term", "history:staged-or-batched-constraints", "tiny-scale-row", "huge-vector-columns"],
+                                                                 "extract_linear_coefficient", "extract_constant_term", "history:staged-or-batched-constraints", "tiny-scale-row", "huge-vector-columns", "sweep:vector-spellings", "sweep:block-spellings"],
         "assumptions": [
             "harness self-check: the written recipe equals the drawn data in exact rational arithmetic, otherwise the run is inconclusive",
             "only models that optyx itself treats as linear are judged (completeness of LP detection is not claimed)",
@@ -133,6 +133,12 @@ def run_model(lp, rec, rng):
                 bad("objective:constant-term-wrong", got_c0=c0, want_c0=float(want[0]))
             else:
                 bad("objective:cost-vector-wrong", got=c.tolist(), want=(want[1:-1] - want[0]).tolist())
+        # the constant the extracted LP data itself carries (what the LP route adds back to the reported objective value)
+        lp_c0 = getattr(LP, "c0", None)
+        if lp_c0 is not None:
+            rec.cmp(len(pts), "objective")
+            if np.max(np.abs(got + float(lp_c0) - want)) > TOL and np.max(np.abs(got - (want - want[0]))) <= TOL:
+                bad("objective:constant-term-of-the-extracted-data-wrong", got_c0=float(lp_c0), want_c0=float(want[0]))
     if (LP.sense == "min") != (lp["sense"] == "min"):
         bad("objective:sense-wrong", got=LP.sense)
 
@@ -247,6 +253,23 @@ def run(ctx, rec):
     for k_, n_ in enumerate((10050, 1200, 100020 if ctx.tier == "thorough" else 10001)):
         if ctx.mine(k_ + 9):
             run_huge_vector(rec, n_)
+    # directed sweep: every vector spelling of the writer x sense, once as the single constraint and once as the whole objective;
+    # every element-wise block spelling x sense
+    i = 0
+    for form in L.VECTOR_FORMS:
+        for s_ in ("<=", ">=", "=="):
+            i += 1
+            if ctx.mine(i):
+                for bare in (False, True):
+                    lp = L.form_lp(rng, form, s_, bare_objective=bare)
+                    rec.cmp(1, "sweep:vector-spellings")
+                    run_model(lp, rec, rng)
+    for form in L.BLOCK_FORMS:
+        for s_ in ("<=", ">=", "=="):
+            i += 1
+            if ctx.mine(i):
+                rec.cmp(1, "sweep:block-spellings")
+                run_model(L.block_lp(rng, form, s_), rec, rng)
     n = 0
     target = N_RANDOM[ctx.tier]
     while n < target and not rec.out_of_time():
